@@ -156,13 +156,34 @@ def check(repo):
             continue
         enc = s.method("_Enc")
         ft = fn_terms(repo, enc)
-        var = "l" if s.name == "DP17.Pi" else "t"
-        defs = [d for d in ft.defs if d.var == var and d.kind == "assign" and not d.path]
-        if not r5.require(len(defs) >= 1, enc, "level count %s" % var, "%s._Enc no longer computes the level count %r" % (s.name, var)):
+        # the level count is recognised by what it is computed from - a logarithm / bit length of the total size - not by its name
+        N = ("call", "toolkit/database_utils.py::get_total_size", (("param", enc.params[2]),), ())
+        from ..terms import walk as _walk
+
+        def _log_of_total(tt):
+            for x in _walk(tt):
+                if isinstance(x, tuple) and x and ((x[0] == "call" and x[1] in ("math.log2", "math.log", "log2")) or (x[0] == "mcall" and x[2] == "bit_length")):
+                    if any(y == N for y in _walk(x)):
+                        return True
+            return False
+        defs = []
+        for d in ft.defs:
+            if d.kind != "assign" or d.path:
+                continue
+            try:
+                if _log_of_total(ft.def_term(d)) and not any(_log_of_total(ft.def_term(o)) for o in defs if o.var == d.var and o.stmt is d.stmt):
+                    defs.append(d)
+            except Exception:
+                continue
+        # a value derived from an earlier level count (s = ceil(l * ratio), p = ceil(l / s)) is not itself the level count
+        firsts = [d for d in defs if not any(o is not d and ("var", o.var) != ("var", d.var) and ft.def_term(o) != ft.def_term(d) and
+                                              any(y == ft.def_term(o) for y in _walk(ft.def_term(d))) for o in defs)]
+        defs = firsts or defs
+        var = defs[0].var if defs else ("l" if s.name == "DP17.Pi" else "t")
+        if not r5.require(len(defs) >= 1, enc, "level count", "%s._Enc no longer computes the level count (ceil(log2(total size)))" % s.name):
             continue
         for d in defs[:1]:
             tt = ft.def_term(d)
-            N = ("call", "toolkit/database_utils.py::get_total_size", (("param", enc.params[2]),), ())
             ok1 = tt == ("call", "math.ceil", (("call", "math.log2", (N,), ()),), ())
             ok2 = tt[0] == "mcall" and tt[2] == "bit_length" and tt[1] == ("binop", "Sub", N, ("const", 1))
             r5.require(ok1 or ok2, enc, "level count formula",
